@@ -426,7 +426,16 @@ def run(ctx):
                     writers.append((f, c))
     for f, c in writers:
         r5.instance("%s: value copy" % f.qname)
-        sens_conds = [(b, cond) for b, cond in C.cond_blocks(f) if any(f.nodes[x]["k"] == "call" and f.nodes[x].get("callee") == "is_sensitive" for x in f.walk(cond))]
+        sens_vars = set()
+        for m in f.nodes.values():
+            if m["k"] == "decl":
+                for v in m["vars"]:
+                    if v.get("init") is not None and any(f.nodes[x]["k"] == "call" and f.nodes[x].get("callee") == "is_sensitive" for x in f.walk(v["init"])):
+                        sens_vars.add(v["name"])
+            elif m["k"] == "bin" and m["op"] == "=" and f.sn(m["l"])["k"] == "ref" and any(f.nodes[x]["k"] == "call" and f.nodes[x].get("callee") == "is_sensitive" for x in f.walk(m["r"])):
+                sens_vars.add(f.sn(m["l"])["name"])
+        sens_conds = [(b, cond) for b, cond in C.cond_blocks(f) if any((f.nodes[x]["k"] == "call" and f.nodes[x].get("callee") == "is_sensitive") or
+                                                                        (f.nodes[x]["k"] == "ref" and f.nodes[x].get("name") in sens_vars) for x in f.walk(cond))]
         if not sens_conds:
             r5.violation("%s:no-filter" % f.name, "%s copies an attribute value into a reply without consulting is_sensitive()" % f.name, loc=f.loc(c))
             continue
